@@ -14,6 +14,7 @@ OPS = [
     ("create", "/n", None, {"n"}), ("mkdir", "/m", None, {"m"}),
     ("rendir", "/d", "/e", {"d", "e"}), ("delete", "/d/a", None, {"d"}), ("create", "/d/n", None, {"d"}), ("mkdir", "/d/s", None, {"d"}),
     ("rename", "/b", "/d/b", {"b", "d"}), ("write", "/d/a", None, {"d"}),
+    ("mkdir", "/d", None, {"d"}), ("rename", "/e/a", "/d/a", {"d", "e"}),          # re-using a renamed folder's old name
 ]
 
 
@@ -63,7 +64,10 @@ def _factory(params, env=None):
             return {"ok": False, "info": {"why": "base tree did not become quiet"}, "sigdata": {"symptom": "base-not-quiet"}}
         nl, nr = params["nl"], params["nr"]
         # the two sides' operation indices stay symbolic until the disjointness constraint is asserted
+        pre = params.get("prefixL") or []
         vl = [e.var("opL", 0, len(OPS) - 1) for _ in range(nl)]
+        for v_, want in zip(vl, pre):
+            e.assume(v_ == want) if e.symbolic else None
         vr = [e.var("opR", 0, len(OPS) - 1) for _ in range(nr)]
         if e.symbolic:
             import z3
@@ -138,6 +142,8 @@ def jobs(tier):
     out = []
     if q:
         combos = [(f, 1, 1, 1) for f in ("oid", "path")] + [(f, 2, 1, 0) for f in ("oid",)]
+        # one side renames a folder and keeps working under both names (3 operations), the other side does one unrelated thing
+        out.append({"harness": "merge", "params": {"flavour": "oid", "nl": 3, "nr": 1, "slots": 0, "prefixL": [8]}, "label": "oid/3+1-ops/0-slots/first=rendir"})
     else:
         combos = [(f, 1, 1, 2) for f in ("oid", "path", "mixed", "oid-ci")] + [(f, 2, 1, 1) for f in ("oid", "path")] + [(f, 2, 2, 0) for f in ("oid",)]
     for f, nl, nr, sl in combos:
